@@ -6,7 +6,7 @@ p="$1"; shift
 d=$(mktemp -d /tmp/mutrepo.XXXXXX)
 mkdir -p $d/src && cp -a /repo/src/*.[ch] $d/src/ && cp -a /repo/src/include $d/src/ && cp /repo/config.h $d/
 patch -s -p1 -d $d < "$p" || { echo "patch does not apply"; rm -rf $d; exit 9; }
-cd /verif && VERIF_REPO=$d bin/check "$@" --no-evidence; rc=$?
+cd "$(dirname "$0")/.." && VERIF_REPO=$d bin/check "$@" --no-evidence; rc=$?
 rm -rf $d
 echo "exit=$rc"
 exit $rc
